@@ -3,6 +3,7 @@ package ocpp16
 import (
 	"fmt"
 	"reflect"
+	"sync"
 
 	"github.com/lorenzodonini/ocpp-go/internal/callbackqueue"
 	"github.com/lorenzodonini/ocpp-go/ocpp"
@@ -37,7 +38,9 @@ type chargePoint struct {
 	conclusions                   chan conclusion // responses and errors on their way to the callback routine, in the order they were concluded
 	callbacks                     callbackqueue.CallbackQueue
 	stopC                         chan struct{}
-	errC                          chan error // external error channel
+	errC                          chan error    // external error channel
+	errDone                       chan struct{} // closed by Stop before errC is: releases error(), which may be waiting for a reader
+	errMutex                      sync.RWMutex  // guards errC and errDone: Stop closes the channel that error() sends on
 }
 
 // conclusion is what a request ended with: the peer's response, or an error.
@@ -49,8 +52,13 @@ type conclusion struct {
 }
 
 func (cp *chargePoint) error(err error) {
+	cp.errMutex.RLock()
+	defer cp.errMutex.RUnlock()
 	if cp.errC != nil {
-		cp.errC <- err
+		select {
+		case cp.errC <- err:
+		case <-cp.errDone:
+		}
 	}
 }
 
@@ -62,8 +70,11 @@ func (cp *chargePoint) onRequestTimeout(_ string, _ ocpp.Request, err *ocpp.Erro
 
 // Errors returns a channel for error messages. If it doesn't exist it es created.
 func (cp *chargePoint) Errors() <-chan error {
+	cp.errMutex.Lock()
+	defer cp.errMutex.Unlock()
 	if cp.errC == nil {
 		cp.errC = make(chan error, 1)
+		cp.errDone = make(chan struct{})
 	}
 	return cp.errC
 }
@@ -461,9 +472,18 @@ func (cp *chargePoint) Stop() {
 	// Cleanup callbacks. No callback invocation, since the user manually stopped the client.
 	cp.clearCallbacks(false)
 
-	if cp.errC != nil {
+	// Close the error channel. Routines of the library may be reporting an error at this very moment:
+	// error() must never find the channel closed.
+	cp.errMutex.RLock()
+	done := cp.errDone
+	cp.errMutex.RUnlock()
+	if done != nil {
+		close(done) // whoever waits in error() for a reader gives up
+		cp.errMutex.Lock()
 		close(cp.errC)
 		cp.errC = nil
+		cp.errDone = nil
+		cp.errMutex.Unlock()
 	}
 }
 
